@@ -94,6 +94,28 @@ impl Sut for R2d2 {
     }
 }
 
+/// the same pool with a recycle timeout configured (recycle then runs under `Runtime::timeout`)
+pub struct R2d2Rto;
+impl Sut for R2d2Rto {
+    type C = ScriptedConn;
+    type M = deadpool_r2d2::Manager<Scripted>;
+    fn pool(max: usize) -> Pool<Self::M> {
+        Pool::builder(deadpool_r2d2::Manager::new(Scripted { n: AtomicUsize::new(0) }, Runtime::Tokio1))
+            .max_size(max)
+            .runtime(Runtime::Tokio1)
+            .recycle_timeout(Some(std::time::Duration::from_secs(20)))
+            .create_timeout(Some(std::time::Duration::from_secs(20)))
+            .build()
+            .unwrap()
+    }
+    fn break_conn(c: &mut ScriptedConn) {
+        c.broken.store(true, Ordering::SeqCst)
+    }
+    fn invalidate(c: &mut ScriptedConn) {
+        c.invalid.store(true, Ordering::SeqCst)
+    }
+}
+
 // --- sqlite ----------------------------------------------------------------------------
 pub struct Sqlite;
 impl Sut for Sqlite {
@@ -102,6 +124,22 @@ impl Sut for Sqlite {
     fn pool(max: usize) -> Pool<Self::M> {
         let cfg = deadpool_sqlite::Config::new(":memory:");
         cfg.builder(Runtime::Tokio1).unwrap().max_size(max).build().unwrap()
+    }
+}
+
+pub struct SqliteRto;
+impl Sut for SqliteRto {
+    type C = deadpool_sqlite::rusqlite::Connection;
+    type M = deadpool_sqlite::Manager;
+    fn pool(max: usize) -> Pool<Self::M> {
+        let cfg = deadpool_sqlite::Config::new(":memory:");
+        cfg.builder(Runtime::Tokio1)
+            .unwrap()
+            .max_size(max)
+            .runtime(Runtime::Tokio1)
+            .recycle_timeout(Some(std::time::Duration::from_secs(20)))
+            .build()
+            .unwrap()
     }
 }
 
@@ -240,7 +278,9 @@ impl<S: Sut> World<S> {
             }
             (false, _) => {
                 let pool = self.pool.clone();
-                let to = Timeouts { wait: Some(Duration::ZERO), create: None, recycle: None };
+                // never wait for a slot; the pool's own create / recycle timeouts (if configured) stay in force
+                let mut to: Timeouts = pool.timeouts();
+                to.wait = Some(Duration::ZERO);
                 Box::pin(async move { pool.timeout_get(&to).await })
             }
         };
